@@ -84,3 +84,5 @@ META = dict(
                 "forms above U+10FFFF exactly like the library does (outside C05's statement; counted in the evidence)."),
     technique="runtime monitoring: reference-codec oracle + double-fill written-bytes test + canaries + cross-path digests + ASan/UBSan",
 )
+
+CFG["rule"] += (" " + 'Additions: one UTF-8 text in six starts with a (possibly damaged) byte-order mark; stale aws_last_error()/errno between calls; stages giant_vector / giant_portable decode one text of 4 GiB + 64 MiB in one call (every output byte compared, an illegal character beyond offset 2^32 must be refused).')
